@@ -560,7 +560,11 @@ func parseDump(s string) map[string]any {
 
 func dataConfig(in *DataInput, dir, templ, filename string, formatter string) string {
 	var cfg strings.Builder
-	fmt.Fprintf(&cfg, "template: file://%s\nrequire-template-schema-exists: false\nformatter: %s\nforce-file-write: true\nfilename: %s\n", filepath.Join(dir, templ), formatter, filename)
+	if templ == "testify" || templ == "matryer" {
+		fmt.Fprintf(&cfg, "template: %s\nformatter: %s\nforce-file-write: true\nfilename: %s\n", templ, formatter, filename)
+	} else {
+		fmt.Fprintf(&cfg, "template: file://%s\nrequire-template-schema-exists: false\nformatter: %s\nforce-file-write: true\nfilename: %s\n", filepath.Join(dir, templ), formatter, filename)
+	}
 	switch in.Placement {
 	case "inpkg":
 		cfg.WriteString("pkgname: src\n")
@@ -629,7 +633,10 @@ func (p c14) Run(c *Ctx, raw json.RawMessage) Case {
 	}
 	defer os.RemoveAll(dir)
 	files := supportFiles()
-	files["go.mod"] = goModText
+	files["go.mod"] = goModText + "\nrequire github.com/stretchr/testify v1.10.0\n\nrequire (\n\tgithub.com/davecgh/go-spew v1.1.1 // indirect\n\tgithub.com/pmezard/go-difflib v1.0.0 // indirect\n\tgithub.com/stretchr/objx v0.5.2 // indirect\n\tgopkg.in/yaml.v3 v3.0.1 // indirect\n)\n"
+	if b, err := os.ReadFile(filepath.Join(c.Src, "go.sum")); err == nil {
+		files["go.sum"] = string(b)
+	}
 	files["src/src.go"] = emitSource(&in)
 	files["dump.templ"] = dataProbe
 	files["reemit.templ"] = reemitProbe
@@ -707,11 +714,28 @@ func (p c14) Run(c *Ctx, raw json.RawMessage) Case {
 			c13Baseline = func(*DataInput) (map[string]any, error) { return baseImpl, nil }
 			o2 = c13Oracle(&in, impl)
 		}
-		// the re-emitted interface is deliberately different from the source when types are replaced:
-		// the only thing asked of it under C13 is that mockery's own output still compiles (checked under C01)
+		// the re-emitted interface is deliberately different from the source when types are replaced; what C13 asks is
+		// that mockery's own output with the setting still compiles: a built-in template, same configuration
 		or = Oracle{OK: true}
 		if !o2.OK && or.OK {
 			or = o2
+		}
+		if or.OK && in.Stream == "" {
+			filepath.WalkDir(dir, func(p string, d os.DirEntry, err error) error {
+				if err == nil && !d.IsDir() && d.Name() == fn {
+					os.Remove(p) // what the re-emission probe wrote
+				}
+				return nil
+			})
+			// (matryer's ensure lines assert assignability to the source interface, which replaced types break by design)
+			tmpl := "testify"
+			os.WriteFile(filepath.Join(dir, ".mockery.yml"), []byte(dataConfig(&in, dir, tmpl, fn, "gofmt")), 0o644)
+			rc := c.runMockery(dir, nil, nil)
+			if rc.Exit != 0 {
+				or = fail("does-not-compile", "mockery (%s) failed with the replace-type setting: %s %s", tmpl, formatErrLine(rc), lastLines(rc.Stderr, 1))
+			} else if out, err := runGo(dir, "test", "-count=1", "-run", "^$", "./..."); err != nil {
+				or = fail("does-not-compile", "the %s mock generated with the replace-type setting does not compile: %s", tmpl, lastLines(strings.ReplaceAll(out, dir, ""), 5))
+			}
 		}
 	}
 	nontrivial := false
